@@ -75,9 +75,11 @@ def _exec_call(L, c, fresh, f, m, g, dv, P):
         a.f64[:] = g.standard_normal(2 * m) * 1000.0
         b.f64[:] = g.standard_normal(2 * m) * 1000.0
         r.f64[:] = g.standard_normal(2 * m) * 1000.0
-        a.f64[0] = float(np.ldexp(1.25, -1040))
-        b.f64[2 * m - 1] = float(np.ldexp(-1.75, -1050))
-        r.f64[m] = float(np.ldexp(1.5, -1060))
+        # (whole complex numbers in the subnormal range, in either layout: positions 0, 1, m, m + 1 are both parts of elements 0 and 1 of a
+        # split vector, and of elements 0 and m/2 of an interleaved one; the accumulator is tiny there too, so the results are subnormal)
+        for t, idx in enumerate(sorted(set([0, 1, m % (2 * m), (m + 1) % (2 * m)]))):
+            a.f64[idx] = float(np.ldexp(1.25 + t / 8.0, -1040))
+            r.f64[idx] = float(np.ldexp(1.5 - t / 8.0, -1035))
         base = f[:-7]
         if fresh:
             t = L.fn("new_%s_precomp" % base, "p w")(m)
